@@ -309,6 +309,38 @@ def Store.write (s : Store) (path : Bytes) (f : KeyFile) : Store := fun p => if 
 /-- keyStorePassphrase.GetKey on the directory (ReadFile failure = `none`). -/
 def getKeyAt (P : Prims) (s : Store) (addr path auth : Bytes) : Option (Res Key) := (s path).map (fun f => getKey P addr f auth)
 
+/-! ### the unlocked-key table (keystore.go: `unlocked map[common.Address]*unlocked`, TimedUnlock / Lock / expire / Update) -/
+
+structure KsState where
+  store : Bytes → Option KeyFile           -- account address -> its key file
+  unlocked : Bytes → Option (Key × Bool)   -- account address -> live decrypted key, and whether the unlock has an expiry
+
+inductive KsOp
+  | unlock (a pw : Bytes) (timed : Bool)            -- Unlock (timed = false) / TimedUnlock
+  | lock (a : Bytes)                                -- Lock, or the expiry timer firing
+  | update (a pwOld pwNew : Bytes) (fNew : KeyFile) -- Update: fNew is what EncryptKey wrote for the decrypted key
+
+/-- one operation.  TimedUnlock: decrypt first (GetKey); on success an address that is unlocked INDEFINITELY keeps its live
+    key (the fresh copy is the one that is zeroed), otherwise the entry is replaced by the fresh key.  Update rewrites the
+    file only with an encoding of the key it decrypted. -/
+def KsState.step (P : Prims) (s : KsState) : KsOp → KsState
+  | .unlock a pw timed =>
+    match (s.store a).map (fun f => getKey P a f pw) with
+    | some (.ok k) =>
+      match s.unlocked a with
+      | some (_, false) => s
+      | _ => { s with unlocked := fun x => if x = a then some (k, timed) else s.unlocked x }
+    | _ => s
+  | .lock a => { s with unlocked := fun x => if x = a then none else s.unlocked x }
+  | .update a pwOld pwNew fNew =>
+    match (s.store a).map (fun f => getKey P a f pwOld) with
+    | some (.ok k) =>
+      if getKey P a fNew pwNew = .ok k then { s with store := fun x => if x = a then some fNew else s.store x } else s
+    | _ => s
+
+/-- the key SignHash / SignTx sign with (`none` = ErrLocked). -/
+def KsState.signingKey (s : KsState) (a : Bytes) : Option Key := (s.unlocked a).map (·.1)
+
 /-! ### EncryptKey -/
 
 def scryptR : Int := 8
